@@ -16,6 +16,9 @@ DERIVS = ['natural', 'sorted', 'shuffled', 'selected', 'concatenated', 'regrown'
 # derivations that resize / rebuild / re-derive after the rows were rearranged (fewer sources each, see generate)
 DERIVS2 = ['reordered_grown', 'grown_reordered', 'shrunk', 'deleted_grown', 'merged_grown', 'concat_grown', 'unpickled',
            'aliased', 'late_columns', 'sel_sel_sorted', 'ends_fixed']
+# derivations through functions that build the returned table column by column and have to hand every column over
+# to it (fewer sources each; the compared column is drawn from ALL columns of the derived table, see generate)
+DERIVS3 = ['hshuffled_subset', 'hshuffled_all', 'kept_only', 'setcol', 'mapped', 'concat_forms', 'weighted']
 OPS = {'CEq': operator.eq, 'CNe': operator.ne, 'CLt': operator.lt, 'CLe': operator.le, 'CGt': operator.gt,
        'CGe': operator.ge}
 OPNAMES = ['CEq', 'CNe', 'CLt', 'CLe', 'CGt', 'CGe']
@@ -34,6 +37,11 @@ SCALARS = {
     'KInt': [0, 1, 2, -1, 7, 3, 100, 2 ** 53, 2 ** 53 + 1, -2 ** 63, 2 ** 63 - 1, 0.0, -0.0, 1.0, 7.0, NAN, INF, -INF,
              2.5, -0.5, 'a', '1', '2.5', '', None, True],
 }
+# integers beyond the binary64 range (legitimate MixedColumn cells; float(x) / math.isnan(x) raise OverflowError on them)
+HUGE = 2 ** 1024
+HUGE_CELLS = [HUGE, NAN, 'a', None, 2.5, -HUGE, INF, 2 ** 1500 + 7]
+HUGE_REFS = [NAN, INF, -INF, 1.7976931348623157e308, -1.7976931348623157e308, 1e300, 0.5, 0.0, 0, 1, HUGE, -HUGE, HUGE + 1,
+             2 ** 1023, float(2 ** 1023), 2 ** 1500 + 7, 'a', None]
 TYPES = {'TInt': int, 'TFloat': float, 'TStr': str, 'TNoneType': type(None), 'TBool': bool, 'TObject': object}
 
 
@@ -90,12 +98,39 @@ def dump(dm):
     return rid, cols
 
 
+def _zbig(n):
+    """a compact Coq Z term for a very large integer: 2^e + r, written with Z.shiftl (linear under vm_compute; Z.pow
+    multiplies e times), when it lies within 2^64 of a power of two, else a hexadecimal numeral -- parsing a decimal
+    numeral of several hundred digits costs 0.1-0.2 s each, and every case prints its cells about twenty times"""
+    m = abs(n)
+    for e in (m.bit_length() - 1, m.bit_length()):
+        r = m - 2 ** e
+        if abs(r) < 2 ** 64:
+            t = 'Z.shiftl 1 %d' % e + (' + %d' % r if r > 0 else ' - %d' % -r if r < 0 else '')
+            break
+    else:
+        t = '0x%x' % m
+    return '(- (%s))' % t if n < 0 else '(%s)' % t
+
+
+def val_lit(c):
+    if type(c) is int and abs(c) >= 2 ** 80:
+        return '(VInt %s)' % _zbig(c)
+    return pyobs.val(c)
+
+
+def pyv_lit(v):
+    if type(v) is int and abs(v) >= 2 ** 80:
+        return '(PInt %s)' % _zbig(v)
+    return pyobs.pyv(v)
+
+
 def dump_lit(d):
     """-> (rid literal, cols literal) or None when a cell is not a plain value"""
     rid, cols = d
     parts = []
     for name, kind, cells in cols:
-        lits = [pyobs.val(c) for c in cells]
+        lits = [val_lit(c) for c in cells]
         if kind is None or any(x is None for x in lits):
             return None
         parts.append('(%s, %s, %s)' % (L.string(name), kind, L.lst(lits)))
@@ -151,12 +186,12 @@ def ref_object(r):
 def ref_lit(r):
     t, v = r
     if t == 'scalar':
-        return '(OScalar %s)' % pyobs.pyv(v)
+        return '(OScalar %s)' % pyv_lit(v)
     if t in ('seq', 'tuple'):
-        return '(OSeq %s)' % L.lst(pyobs.pyv(x) for x in v)
+        return '(OSeq %s)' % L.lst(pyv_lit(x) for x in v)
     if t == 'set':
         # the members as the set holds them (duplicates by == / hash collapse, e.g. 1 and 1.0)
-        return '(OSet %s)' % L.lst(pyobs.pyv(x) for x in set(v))
+        return '(OSet %s)' % L.lst(pyv_lit(x) for x in set(v))
     if t == 'pred':
         return '(OPred %s)' % L.nat(v)
     if t == 'type':
@@ -173,7 +208,7 @@ class C02:
     oracle_imports = ['From DM Require Import Run.SC02.']
     model_imports = ['From DM Require Import Run.SC02 Run.RC02.']
     exhaustive = False
-    rule = ('3 column types x 17 derivations of the source x cell vectors of length 0..6 (thorough: ..10) drawn from a '
+    rule = ('3 column types x 24 derivations of the source x cell vectors of length 0..6 (thorough: ..10) drawn from a '
             '12-15 value alphabet per type (ints incl. 2^53+1 / int64 bounds, floats incl. nan, +-inf, -0.0, text, None) x '
             'references {int, float incl. nan/+-inf/-0.0, text, numeric text, None, bool, same-length list/tuple (incl. the '
             'column\'s own cells, wrong length), set (0-4 members incl. nan, also with the NaN members being the very float '
@@ -188,6 +223,19 @@ class C02:
             'the aliased column extended once; payload columns added AFTER the derivation and after the growth; a '
             'selection of a selection of a sorted table; tables of >= 6 rows whose first and last row (id) stay in place '
             'while the interior is permuted (ids 0..n-1, an id range with offset, ids with gaps, a grown table), also grown. '
+            'Seven more derivations go through functions that assemble the returned table column by column and must hand '
+            'every column over to it: ops.shuffle_horiz on a SUBSET of the columns (c and one or two siblings of its type; '
+            'the payload columns take no part) and on ALL columns (the table, or every column listed), ops.keep_only / '
+            'dm[(names)] / dm[[columns]] / del dm.name, functional.setcol (c rewritten from a list / from a sibling '
+            'column, a new column copying c, a constant or typed new column), functional.map_ over the rows and '
+            'dm.c = map_(f, dm.c) / dm.z = dm.d @ f, a << b in its other forms (row by row, operands with different '
+            'columns, three operands, a dict on the right), ops.weight; each optionally grown / reordered afterwards. On '
+            'these the compared column is drawn from ALL columns of the derived table (c, its siblings, new columns, and '
+            'the Mixed / Float / Int payload columns with references taken from their own cells), so a column that was '
+            'not re-attached to the returned table is compared whatever its role was. A small family puts integers '
+            'beyond the binary64 range (2^1024, -2^1024, 2^1500+7: float(x) and math.isnan(x) overflow on them) into a '
+            'MixedColumn next to NaN, inf, text and None and compares with NaN, +-inf, the largest floats, 2^1023 as int '
+            'and float, huge ints, sets / sequences / predicates / types (natural, sorted, selected, horizontally shuffled). '
             'Every row carries a unique payload p (MixedColumn) and side by side e = p/2 (FloatColumn) and i = 3p+1 '
             '(IntColumn); the L0 oracle compares the row ids and EVERY column of the result with the positional '
             'selection from the dumped source, and independently (Python side) every result row must be, cell for cell over '
@@ -236,7 +284,7 @@ class C02:
         unique payload p (MixedColumn) and, side by side, e = p / 2 (FloatColumn) and i = 3 p + 1 (IntColumn), so a
         result row whose cells come from different source rows is visible in every column type."""
         import pickle
-        from datamatrix import DataMatrix, FloatColumn, IntColumn, MixedColumn, operations as ops
+        from datamatrix import DataMatrix, FloatColumn, IntColumn, MixedColumn, operations as ops, functional as fnc
         rnd = _random.Random(seed)
         ct = coltype(kind)
         alphabet = CELLS[kind]
@@ -511,6 +559,158 @@ class C02:
             elif rnd.random() < 0.3:
                 dm = dm[ends_fixed_perm(len(dm))]
             return dm
+        # ---- derivations through functions that assemble the returned table column by column -------------------
+        # (a column left pointing at a temporary table reads correctly by position, but a comparison on it selects
+        # from that other table: the comparison is then made on ANY column of the derived table, see generate)
+        def sibling(dm, name):
+            dm[name] = ct
+            if len(dm):
+                dm[name] = fillers(len(dm))
+
+        def afterwards(dm, p_grow=0.25, p_reorder=0.15):
+            c = rnd.random()
+            if c < p_grow:
+                return grow(dm, fillers(rnd.randint(1, 2)), 300)
+            if c < p_grow + p_reorder:
+                return reorder(dm)
+            return dm
+
+        if deriv == 'hshuffled_subset':
+            # ops.shuffle_horiz on SOME of the columns: c and one or two siblings of its type trade cells row by row;
+            # the payload columns take no part and must still belong to (and come back from) the returned table
+            dm = table(cells, 100, cols=rnd.choice(['pei', 'peit']))
+            sib = ['d'] + (['d2'] if rnd.random() < 0.4 else [])
+            for name in sib:
+                sibling(dm, name)
+            if rnd.random() < 0.4:
+                dm = reorder(dm)
+            cols = [dm.c] + [dm[name] for name in sib]
+            rnd.shuffle(cols)
+            _random.seed(seed)
+            dm = ops.shuffle_horiz(*cols)
+            if rnd.random() < 0.15 and len(dm):
+                return dm.p != {plainval(dm.p[0])}
+            return afterwards(dm)
+        if deriv == 'hshuffled_all':
+            # ops.shuffle_horiz on ALL columns (the table itself, or every column listed): only columns that can hold
+            # each other's cells take part; the typed payload columns are added afterwards
+            dm = table(cells, 100, cols='pt' if (kind == 'KMixed' and rnd.random() < 0.5) else 'p')
+            if rnd.random() < 0.6:
+                sibling(dm, 'd')
+            if rnd.random() < 0.3:
+                dm = reorder(dm)
+            _random.seed(seed)
+            if rnd.random() < 0.5:
+                dm = ops.shuffle_horiz(dm)
+            else:
+                cols = [col for _name, col in dm.columns]
+                rnd.shuffle(cols)
+                dm = ops.shuffle_horiz(*cols)
+            for name in ('e', 'i'):
+                if rnd.random() < 0.7:
+                    dm[name] = {'e': FloatColumn, 'i': IntColumn}[name]
+                    payload(dm, name, [100 + j for j in range(len(dm))])
+            return afterwards(dm)
+        if deriv == 'kept_only':
+            # ops.keep_only / dm[(names)] / dm[[columns]] / del dm.name: a table with fewer columns
+            dm = table(cells, 100, cols='peit')
+            sibling(dm, 'x')
+            dm.y = IntColumn
+            if rnd.random() < 0.4:
+                dm = reorder(dm)
+            keep = ['p', 'c'] + [nm for nm in ('e', 'i', 't', 'x') if rnd.random() < 0.6]
+            how = rnd.randint(0, 4)
+            if how == 0:
+                dm = ops.keep_only(dm, *keep)
+            elif how == 1:
+                dm = ops.keep_only(dm, *[dm[nm] for nm in keep])
+            elif how == 2:
+                rnd.shuffle(keep)
+                dm = dm[tuple(keep)]
+            elif how == 3:
+                dm = dm[[nm if rnd.random() < 0.5 else dm[nm] for nm in keep]]
+            else:
+                for nm in list(dm.column_names):
+                    if nm not in keep:
+                        if rnd.random() < 0.5:
+                            del dm[nm]
+                        else:
+                            delattr(dm, nm)
+            return afterwards(dm)
+        if deriv == 'setcol':
+            # functional.setcol: a copy of the table with one column (re)written
+            src = table(cells, 100)
+            if rnd.random() < 0.4:
+                src = reorder(src)
+            how = rnd.randint(0, 4) if n else 4
+            if how == 0:                                    # c rewritten from a list
+                dm = fnc.setcol(src, 'c', [plainval(x) for x in src.c][::-1])
+            elif how == 1:                                  # a new column holding a copy of c
+                dm = fnc.setcol(src, 'z', src.c)
+            elif how == 2:                                  # c replaced by the cells of a sibling column of the source
+                sibling(src, 'd')
+                dm = fnc.setcol(src, 'c', src.d)
+            elif how == 3:                                  # a constant column first, then c rewritten
+                dm = fnc.setcol(fnc.setcol(src, 'z', 1), 'c', fillers(len(src)))
+            else:                                           # a new empty column of c's type
+                dm = fnc.setcol(src, 'z', ct)
+            return afterwards(dm)
+        if deriv == 'mapped':
+            # functional.map_ over the rows (a copy written cell by cell), and a mapped column put back into the table
+            src = table(cells, 100)
+            sibling(src, 'd')
+            if rnd.random() < 0.4:
+                src = reorder(src)
+            how = rnd.randint(0, 4)
+            if how == 0:
+                dm = fnc.map_(lambda **d: {}, src)
+            elif how == 1:
+                dm = fnc.map_(lambda **d: {'c': d['d'], 'd': d['c']}, src)
+            elif how == 2:
+                dm = fnc.map_(lambda **d: {'p': d['p'], 'c': d['c']}, src)
+            elif how == 3:
+                dm = src
+                dm.c = fnc.map_(lambda x: x, dm.c)
+            else:
+                dm = src
+                dm.z = dm.d @ (lambda x: x)
+            return afterwards(dm)
+        if deriv == 'concat_forms':
+            # a << b in its other forms: rows appended one at a time, operands with different columns, three operands,
+            # a dict on the right
+            a = table(cells[:k], 100)
+            rest = list(cells[k:])
+            how = rnd.randint(0, 3)
+            if how == 3 and not (kind == 'KMixed' and rest):
+                how = rnd.randint(0, 2)
+            if how == 0:
+                b = table(rest, 200)
+                dm = a
+                for j in range(len(b)):
+                    dm = dm << b[j]
+                if not len(b):
+                    dm = a << b
+            elif how == 1:
+                b = table(rest, 200, cols='pe')
+                sibling(b, 'x')
+                dm = (a << b) if rnd.random() < 0.5 else (b << a)
+            elif how == 2:
+                j = rnd.randint(0, len(rest))
+                dm = a << reorder(table(rest[:j], 200)) << table(rest[j:], 300, cols='pie')
+            else:
+                a = table(cells[:k], 100, cols='pt')
+                ps = [200 + j for j in range(len(rest))]
+                dm = a << {'p': ps, 'c': rest, 't': ['t%d' % x for x in ps]}
+            return afterwards(dm)
+        if deriv == 'weighted':
+            # ops.weight: a new table written cell by cell, every row repeated w times (w = 0: dropped)
+            src = table(cells, 100)
+            if rnd.random() < 0.4:
+                src = reorder(src)
+            if not len(src):
+                return afterwards(src[:])
+            src.w = [rnd.choice([0, 1, 1, 2]) for _ in range(len(src))]
+            return afterwards(ops.weight(src.w))
         raise AssertionError(deriv)
 
     # ---- one case ------------------------------------------------------------------------
@@ -519,11 +719,14 @@ class C02:
         kind, deriv, seed = inp['kind'], inp['deriv'], inp['seed']
         cells = [pyobs.dec(c) for c in inp['cells']]
         ops = inp['ops']
+        colname = inp.get('col', 'c')       # the column compared (the newer derivations: any column of the table)
         with warnings.catch_warnings():
             warnings.simplefilter('ignore')
             try:
                 dm = self.build(kind, deriv, cells, seed)
-                ref = self.make_ref(inp['ref'], dm)
+                if colname not in dm._cols:
+                    return None
+                ref = self.make_ref(inp['ref'], dm, colname)
                 before = dump(dm)
             except Exception as e:      # noqa: BLE001
                 # deriving the source is not the operation under test, but a crash is not a verdict either: on the
@@ -534,14 +737,15 @@ class C02:
                         'sig': 'build|%s|%s|%s|%s' % (kind, deriv, inp['cells'], seed), 'tags': [kind, deriv, 'build-raised']}
             src_lit = dump_lit(before)
             pyfail = None
-            if src_lit is None or kind_of(dm.c) != kind:
+            ckind = kind_of(dm._cols[colname])
+            if src_lit is None or ckind is None or (colname == 'c' and ckind != kind):
                 return None
             obs_lits, observed = [], []
             sizes = []
             for k_op, opn in enumerate(ops):
                 refobj = ref_object(ref)
                 try:
-                    res = OPS[opn](dm.c, refobj)
+                    res = OPS[opn](dm[colname], refobj)
                     out = ('ok', res)
                 except Exception as e:      # noqa: BLE001
                     out = ('exn', pyobs.exn_name(e))
@@ -602,17 +806,21 @@ class C02:
         rlit = ref_lit(ref)
         xs = L.lst(obs_lits)
         n = len(before[0])
-        args = '%s %s "c" %s %s' % (src_lit[0], src_lit[1], rlit, xs)
+        args = '%s %s %s %s %s' % (src_lit[0], src_lit[1], L.string(colname), rlit, xs)
         return {
             'input': dict(inp, ref=(dict(enc_ref(ref), shared=True) if inp['ref'].get('shared') else enc_ref(ref))),
             'observed': observed, 'pyfail': pyfail,
             'oracle': '(oracle %s)' % args,
             'model': '(model_agrees %s)' % args,
-            'aux': '(some_in_dom %s "c" %s %s)' % (src_lit[1], rlit, xs),
+            'aux': '(some_in_dom %s %s %s %s)' % (src_lit[1], L.string(colname), rlit, xs),
             'nontrivial': any(0 < s < n for s in sizes),
-            'sig': '%s|%s|%s|%s%s%s' % (kind, deriv, src_lit[1], rlit, '|shared' if inp['ref'].get('shared') else '',
-                                        '|' + ','.join(inp['between']) if inp.get('between') else ''),
-            'tags': [kind, deriv, 'ref:' + self.ref_tag(ref), 'len%d' % n] + (['shared-nan'] if inp['ref'].get('shared') else []),
+            'sig': '%s|%s|%s|%s%s%s%s' % (kind, deriv, src_lit[1], rlit, '|shared' if inp['ref'].get('shared') else '',
+                                          '|' + ','.join(inp['between']) if inp.get('between') else '',
+                                          '|col=' + colname if colname != 'c' else ''),
+            'tags': [kind, deriv, 'ref:' + self.ref_tag(ref), 'len%d' % n] + (['shared-nan'] if inp['ref'].get('shared') else [])
+            + (['col:%s/%s' % (colname if colname in 'peit' else 'other', ckind)] if colname != 'c' else [])
+            + (['huge-int-cell'] if any(type(x) is int and abs(x) >= HUGE for nm, _k, c in before[1] if nm == colname
+                                        for x in c) else []),
         }
 
     def ref_tag(self, ref):
@@ -666,18 +874,24 @@ class C02:
             return 'result columns %r differ from the source columns %r' % (list(res._cols), list(dm._cols))
         return None
 
-    def make_ref(self, r, dm):
-        """A reference spec may depend on the derived source: 'own' = the column's current cells."""
-        if r['t'] == 'own':
-            cells = [plainval(v) for v in dm.c]
+    def make_ref(self, r, dm, colname='c'):
+        """A reference spec may depend on the derived source: 'own' = the column's current cells, 'ownscalar' = one
+        of them, 'ownset' = up to three of them (for the payload columns, whose cells no alphabet lists)."""
+        col = dm._cols[colname]
+        if r['t'] in ('own', 'ownscalar', 'ownset'):
+            cells = [plainval(v) for v in col]
             rnd = _random.Random(r['v'])
-            alt = SCALARS[kind_of(dm.c)][:12]
-            return ('seq', [c if rnd.random() < 0.6 else rnd.choice(alt) for c in cells])
+            alt = SCALARS[kind_of(col)][:12]
+            if r['t'] == 'own':
+                return ('seq', [c if rnd.random() < 0.6 else rnd.choice(alt) for c in cells])
+            if r['t'] == 'ownscalar':
+                return ('scalar', rnd.choice(cells) if cells else alt[0])
+            return ('set', [rnd.choice(cells) for _ in range(rnd.randint(1, 3))] if cells else [])
         ref = dec_ref(r)
-        if r.get('shared') and ref[0] == 'set' and isinstance(dm.c._seq, list):
+        if r.get('shared') and ref[0] == 'set' and isinstance(col._seq, list):
             # the NaN members of the set are the very float objects the column stores (a MixedColumn keeps the
             # object it was given): `x in set` / `x == y` short-cuts on identity must not make NaN match
-            own = [x for x in dm.c._seq if type(x) is float and x != x]
+            own = [x for x in col._seq if type(x) is float and x != x]
             if own and any(type(x) is float and x != x for x in ref[1]):
                 ref = ('set', [x for x in ref[1] if not (type(x) is float and x != x)] + own)
         return ref
@@ -769,16 +983,64 @@ class C02:
                                 inp_['between'] = rng.sample(['shuffle_col', 'shuffle_p', 'shuffle_dm', 'sample', 'sort',
                                                               'shuffle_res'], rng.randint(1, 3))
                             add(inp_)
+        # integers beyond the binary64 range as MixedColumn cells, against NaN / inf / float / huge references of every
+        # kind (a handful of cases: each such numeral is several hundred digits)
+        hcells = [pyobs.enc(c) for c in HUGE_CELLS]
+        for deriv in ('natural', 'sorted', 'selected', 'hshuffled_subset'):
+            base = {'kind': 'KMixed', 'deriv': deriv, 'cells': hcells, 'seed': rng.randint(0, 10 ** 6), 'ops': OPNAMES}
+            full = deriv == 'natural'
+            for v in (HUGE_REFS if full else HUGE_REFS[:3] + rng.sample(HUGE_REFS[3:], 2)):
+                add(dict(base, ref={'t': 'scalar', 'v': pyobs.enc(v)}))
+            for vs in ([NAN], [NAN, HUGE], [INF, 1], [-HUGE, 2.5])[:4 if full else 2]:
+                add(dict(base, ref={'t': 'set', 'v': [pyobs.enc(x) for x in vs]}))
+            add(dict(base, ref={'t': 'set', 'v': [pyobs.enc(NAN)], 'shared': True}))
+            add(dict(base, ref={'t': 'own', 'v': rng.randint(0, 10 ** 6)}))
+            m = self.source_info('KMixed', deriv, hcells, base['seed'], len(hcells))[0]
+            add(dict(base, ref={'t': 'seq', 'v': [pyobs.enc(rng.choice([NAN, INF, 0.5, HUGE, 1])) for _ in range(m)]}))
+            for i in (3, 6, 8, 9) if full else (3,):
+                add(dict(base, ref={'t': 'pred', 'v': i}))
+            for t in ('TInt', 'TFloat') if full else ():
+                add(dict(base, ref={'t': 'type', 'v': t}))
+        # tables assembled column by column (DERIVS3): the comparison is made on any column of the derived table
+        for kind in KINDS:
+            for deriv in DERIVS3:
+                for n in range(0, maxlen + 1):
+                    for _ in range(1 if (tier == 'quick' or n < 2) else 4):
+                        cells = [pyobs.enc(rng.choice(CELLS[kind])) for _ in range(n)]
+                        seed = rng.randint(0, 10 ** 6)
+                        m, cols = self.source_info(kind, deriv, cells, seed, n)
+                        cols = [(nm, kd) for nm, kd in cols if kd in KINDS] or [('c', kind)]
+                        special = [(nm, kd) for nm, kd in cols if nm not in ('p', 'e', 'i', 't', 'w', 'y')]
+                        nsrc += 1
+                        for j in range(refs_per_source - 1):
+                            colname, ckind = rng.choice(special) if (j < 2 and special) else rng.choice(cols)
+                            which = whiches[(j + nsrc) % 5]
+                            if colname in ('p', 'e', 'i', 't', 'w') and which in ('scalar', 'set') and rng.random() < 0.7:
+                                ref = {'t': 'own' + which, 'v': rng.randint(0, 10 ** 6)}
+                            else:
+                                ref = self.random_ref(rng, ckind, m, which)
+                            inp_ = {'kind': kind, 'deriv': deriv, 'cells': cells, 'seed': seed, 'ops': OPNAMES, 'ref': ref}
+                            if colname != 'c':
+                                inp_['col'] = colname
+                            if rng.random() < 0.15:
+                                inp_['between'] = rng.sample(['shuffle_col', 'shuffle_p', 'shuffle_dm', 'sample', 'sort',
+                                                              'shuffle_res'], rng.randint(1, 2))
+                            add(inp_)
         return cases
 
     def source_length(self, kind, deriv, cells, seed, default):
         """the number of rows of the derived source (sequence references are drawn with that length)"""
+        return self.source_info(kind, deriv, cells, seed, default)[0]
+
+    def source_info(self, kind, deriv, cells, seed, default):
+        """(number of rows, [(column name, kind)]) of the derived source"""
         try:
             with warnings.catch_warnings():
                 warnings.simplefilter('ignore')
-                return len(self.build(kind, deriv, [pyobs.dec(c) for c in cells], seed))
+                dm = self.build(kind, deriv, [pyobs.dec(c) for c in cells], seed)
+                return len(dm), [(nm, kind_of(col)) for nm, col in dm._cols.items()]
         except Exception:       # noqa: BLE001   (rerun reports it)
-            return default
+            return default, [('c', kind)]
 
     def shrink_candidates(self, inp):
         out = []
@@ -803,8 +1065,9 @@ class C02:
 
     def key(self, case):
         i = case['input']
-        return 'select kind=%s deriv=%s ops=%s ref=%s cells=%s' % (
-            i['kind'], i['deriv'], ','.join(i['ops']), i['ref'], i['cells'])
+        return 'select kind=%s deriv=%s%s ops=%s ref=%s cells=%s' % (
+            i['kind'], i['deriv'], ' col=%s' % i['col'] if i.get('col', 'c') != 'c' else '', ','.join(i['ops']), i['ref'],
+            i['cells'])
 
 
 PROP = C02()
